@@ -186,8 +186,12 @@ void Response::toXml(QXmlStreamWriter *writer) const
 
 std::optional<Success> Success::fromDom(const QDomElement &el)
 {
-    if (el.tagName() == u"success" && el.namespaceURI() == ns_sasl) {
-        return Success();
+    if (el.tagName() != u"success" || el.namespaceURI() != ns_sasl) {
+        return {};
+    }
+
+    if (auto value = parseBase64(el.text())) {
+        return Success { *value };
     }
     return {};
 }
@@ -196,6 +200,9 @@ void Success::toXml(QXmlStreamWriter *writer) const
 {
     writer->writeStartElement(QSL65("success"));
     writer->writeDefaultNamespace(toString65(ns_sasl));
+    if (!value.isEmpty()) {
+        writer->writeCharacters(serializeBase64(value));
+    }
     writer->writeEndElement();
 }
 
@@ -1125,6 +1132,15 @@ std::optional<QByteArray> QXmppSaslClientDigestMd5::respond(const QByteArray &ch
     }
 }
 
+bool QXmppSaslClientDigestMd5::finish(const QByteArray &additionalData)
+{
+    // the server may send the rspauth along with the success instead of in a challenge
+    if (m_step == 2 && !additionalData.isEmpty()) {
+        return respond(additionalData).has_value();
+    }
+    return true;
+}
+
 QXmppSaslClientFacebook::QXmppSaslClientFacebook(QObject *parent)
     : QXmppSaslClient(parent), m_step(0)
 {
@@ -1261,6 +1277,7 @@ std::optional<QByteArray> QXmppSaslClientScram::respond(const QByteArray &challe
         const QMap<char, QByteArray> input = parseGS2(challenge);
         m_step++;
         if (QByteArray::fromBase64(input.value('v')) == m_serverSignature) {
+            m_serverVerified = true;
             return QByteArray();
         }
         return {};
@@ -1268,6 +1285,16 @@ std::optional<QByteArray> QXmppSaslClientScram::respond(const QByteArray &challe
         warning(u"QXmppSaslClientPlain : Invalid step"_s);
         return {};
     }
+}
+
+bool QXmppSaslClientScram::finish(const QByteArray &additionalData)
+{
+    // The server-final message (server signature) is sent either in a challenge or along with
+    // the success. Without a verified signature the server has not proven to know the password.
+    if (m_step == 2) {
+        return respond(additionalData).has_value();
+    }
+    return m_serverVerified;
 }
 
 QXmppSaslClientWindowsLive::QXmppSaslClientWindowsLive(QObject *parent)
